@@ -55,6 +55,8 @@ def run(rep, tier):
         guard(rep, c, sfx)
         count(rep, c, sfx)
         linebreak(rep, c, sfx)
+        leaftest(rep, c, sfx)
+        lenstep(rep, c, sfx)
 
 
 # ------------------------------------------------------------------ CTOR
@@ -518,3 +520,123 @@ def linebreak(rep, c, sfx):
         if "\n" not in chars:
             r.violation("Position::line_col", where(n), "the line number is incremented on a path that did not "
                         "consume '\\n' (chars %s)" % sorted(chars))
+
+
+# ------------------------------------------------------------------ LEAFTEST (sibling renderers)
+
+def leaftest(rep, c, sfx):
+    r = rep.rule("C04.LEAFTEST" + sfx, 1 if not sfx else 2,
+                 "the renderers of a Pair that distinguish a leaf from a node (Display {:#}, JSON) decide it by the "
+                 "same predicate: the inner pairs are empty - and by nothing else")
+    conds = []
+    for fn in c.bodies:
+        if not (fn.get("impl_self") or "").startswith(PAIR) or not fn.get("impl_trait"):
+            continue
+        for n in walk(fn["body"]):
+            if kind(n) != "If":
+                continue
+            if not any(kind(x) == "MethodCall" and x["m"] == "peek" for x in walk(n["cond"])):
+                continue
+            # the peeked iterator must derive from into_inner()
+            lets = hirq.lets(fn["body"])
+            def from_inner(x, d=0):
+                x = peel(x)
+                if d > 5:
+                    return False
+                if kind(x) == "MethodCall" and x["m"] == "into_inner":
+                    return True
+                if kind(x) == "MethodCall":
+                    return from_inner(x["recv"], d + 1)
+                if kind(x) == "Path" and x.get("res") == "local" and x["id"] in lets:
+                    return from_inner(lets[x["id"]][0], d + 1)
+                return False
+            peeks = [x for x in walk(n["cond"]) if kind(x) == "MethodCall" and x["m"] == "peek"]
+            if not any(from_inner(x["recv"]) for x in peeks):
+                continue
+            canon = canon_leaf(n["cond"])
+            conds.append((fn, n, canon))
+            r.instance(fn["path"].split(" as ")[-1], where(n), canon)
+    for (fn, n, canon) in conds:
+        if canon != "INNER.peek().is_none()":
+            r.violation(fn["path"].split(" as ")[-1], where(n),
+                        "this renderer decides leaf/node by `%s`, its siblings by `inner.peek().is_none()`: a pair "
+                        "with children can be rendered as a leaf (the views of one tree disagree)" % canon)
+
+
+def canon_leaf(c):
+    c = peel(c)
+    k = kind(c)
+    if k == "Binary":
+        return "(%s %s %s)" % (canon_leaf(c["l"]), c["op"], canon_leaf(c["r"]))
+    if k == "Unary":
+        return "%s%s" % (c["op"], canon_leaf(c["e"]))
+    if k == "MethodCall":
+        if c["m"] == "peek":
+            return "INNER.peek()"
+        return "%s.%s()" % (canon_leaf(c["recv"]), c["m"])
+    if k == "Path":
+        return c.get("name") or c.get("path", "?")
+    if k == "Field":
+        return "%s.%s" % (canon_leaf(c["base"]), c["name"])
+    return "<%s>" % k
+
+
+# ------------------------------------------------------------------ LENSTEP (len vs step functions)
+
+def lenstep(rep, c, sfx):
+    r = rep.rule("C04.LENSTEP" + sfx, 3,
+                 "for every iterator with an ExactSizeIterator::len: either len reads a cached counter that every "
+                 "step decrements once (C04.COUNT), or len is a function of the window bounds and then every step "
+                 "moves a bound by a constant matching len's scale - never by a data-dependent amount")
+    lens = [b for b in c.bodies if b.get("impl_trait") == "core::iter::traits::exact_size::ExactSizeIterator"
+            and b["name"] == "len" and (b.get("impl_self") or "").startswith("pest::iterators::")]
+    cg = hirq.CallGraph([c])
+    for ln in lens:
+        ty = ln["impl_self"]
+        short = ty.split("::")[-1]
+        fields = sorted(set(x["name"] for x in walk(ln["body"]) if kind(x) == "Field" and base_name(x["base"]) == "self"))
+        r.instance("len:" + short, where(ln["body"]), "reads %s" % fields)
+        if not (set(fields) & {"start", "end"}):
+            continue  # cached counter: C04.COUNT
+        counting = any(kind(x) == "MethodCall" and x["m"] in ("count", "filter", "fold", "sum") for x in walk(ln["body"])) \
+            or any(kind(x) == "Loop" for x in walk(ln["body"]))
+        if counting:
+            r.note("%s::len counts the remaining items of the window (valid for any step width)" % short)
+            continue
+        # scale: (end - start) >> s
+        shift = 0
+        for x in walk(ln["body"]):
+            if kind(x) == "Binary" and x["op"] == ">>" and isinstance(hirq.lit_value(x["r"]), int):
+                shift = hirq.lit_value(x["r"])
+            if kind(x) == "Binary" and x["op"] == "/" and hirq.lit_value(x["r"]) == 2:
+                shift = 1
+        want = 1 << shift
+        steps = [b for b in c.bodies if b.get("impl_self") == ty and b["name"] in ("next", "next_back")
+                 and b.get("impl_trait")]
+        for st in steps:
+            # the step and the self-helpers it calls
+            bodies = [st]
+            for (callee_path, n) in hirq.call_sites(st["body"]):
+                h = c.fn(callee_path)
+                if h is not None and h.get("impl_self") == ty and h is not st and h["inputs"] and h["inputs"][0].startswith("&mut"):
+                    bodies.append(h)
+            for b in bodies:
+                ctx = hirq.Ctx(b)
+                for x in walk(b["body"]):
+                    if kind(x) not in ("Assign", "AssignOp"):
+                        continue
+                    pl = hirq.place(x["l"])
+                    if not pl or pl[0] != "self" or pl[2][:1] not in (["start"], ["end"]):
+                        continue
+                    in_loop = any(kind(p) == "Loop" for (p, k, i) in ctx.ancestors(x))
+                    amount = hirq.lit_value(x["r"]) if kind(x) == "AssignOp" else None
+                    key = "%s::%s:%s" % (short, st["name"], pl[2][0])
+                    r.instance(key, where(x), "%s %s%s" % (x.get("op", "="), amount, " in loop" if in_loop else ""))
+                    if in_loop or amount is None:
+                        r.violation(key, where(x),
+                                    "%s::len is computed from the window width, but %s moves `%s` by a data-dependent "
+                                    "amount (%s): after a step over a nested pair the width no longer counts the "
+                                    "remaining items, so len()/size_hint() disagree with what iteration yields"
+                                    % (short, st["name"], pl[2][0], "loop" if in_loop else "non-constant"))
+
+
